@@ -23,8 +23,28 @@ import (
 	"github.com/hashicorp/raft"
 	"github.com/openGemini/openGemini/lib/config"
 	"github.com/openGemini/openGemini/lib/logger"
+	"github.com/openGemini/openGemini/lib/spdy/transport"
 	meta2 "github.com/openGemini/openGemini/lib/util/lifted/influx/meta"
+	"go.uber.org/zap"
 )
+
+// verifNetStore answers every store RPC with success and does nothing.
+type verifNetStore struct{}
+
+func (verifNetStore) GetShardSplitPoints(*meta2.DataNode, string, uint32, uint64, []int64) ([]string, error) {
+	return nil, nil
+}
+func (verifNetStore) DeleteDatabase(*meta2.DataNode, string, uint32) error { return nil }
+func (verifNetStore) DeleteRetentionPolicy(*meta2.DataNode, string, string, uint32) error {
+	return nil
+}
+func (verifNetStore) DeleteMeasurement(*meta2.DataNode, string, string, string, []uint64) error {
+	return nil
+}
+func (verifNetStore) MigratePt(uint64, transport.Codec, transport.Callback) error { return nil }
+func (verifNetStore) SendSegregateNodeCmds([]uint64, []string) (int, error)       { return 0, nil }
+func (verifNetStore) TransferLeadership(string, uint64, uint32, uint32) error     { return nil }
+func (verifNetStore) SendClearEvents(uint64, transport.Codec) error               { return nil }
 
 // Exports of the meta state machine for runtime monitors (build tag verif only): the
 // real storeFSM over a fresh catalogue, without raft, network or background services.
@@ -50,6 +70,11 @@ func VerifNewFSM(o VerifFSMOptions) raft.FSM {
 	c.SchemaCleanEn = o.SchemaCleanEn
 	s := NewStore(c, "127.0.0.1:8091", "127.0.0.1:8092", "127.0.0.1:8088")
 	s.Logger = logger.NewLogger(0)
+	s.NetStore = verifNetStore{}
+	if meta2.DataLogger == nil {
+		// NewService does this for a real ts-meta
+		meta2.DataLogger = logger.GetLogger().With(zap.String("service", "data"))
+	}
 	return (*storeFSM)(s)
 }
 
